@@ -499,7 +499,7 @@ func TestVerifOPRF(t *testing.T) {
 	lib.Mandatory("oprf:outputs-compared", "oprf:alone-vs-batch", "oprf:two-blinds", "oprf:random-blind",
 		"key:derived", "key:generated", "key:decoded", "oprf:input-len-0", "oprf:input-len-300", "oprf:batch-5",
 		"oprf:verifyfinalize-altered-rejected")
-	per := lib.Scale(24, 400)
+	per := lib.Scale(24, 80)
 	type cs struct {
 		si suiteInfo
 		m  oprf.Mode
